@@ -40,10 +40,10 @@ fn sym_id(vm: &Vm, v: &VCell, st: &mut SymTab) -> usize {
     let cells = vm.verif_heap().verif_cells();
     match v {
         VCell::Ptr(p) => match cells.get(*p) {
-            Some(VCell::Symbol(s)) => st.id(s),
+            Some(VCell::Symbol(s)) => st.id(&symbol_name(s)),
             _ => 0,
         },
-        VCell::Symbol(s) => st.id(s),
+        VCell::Symbol(s) => st.id(&symbol_name(s)),
         _ => 0,
     }
 }
